@@ -15,7 +15,7 @@ import (
 func init() {
 	register(&PropSpec{
 		ID:       "C01",
-		Patterns: append(codecPatterns(), "./pkg/filter/network/streamproxy", "./pkg/stream/http2"),
+		Patterns: append(codecPatterns(), "./pkg/filter/network/streamproxy", "./pkg/stream/http2", "./pkg/protocol/http2"),
 		Explanation: "(R1) layout agreement: the decoder's map field -> (wire offset, width), read off the stores into the frame header, equals the encoder's map computed by summing the widths of its straight-line WriteByte/WriteUint16/32/64 sequence; the request-id patch of the fast path hits that field's offset and width; the fixed header length equals the bytes written; class/header/content are cut at H, H+class, H+class+header and written in that order. " +
 			"(R2) no aliasing: nothing derived by slicing from the connection read buffer's Bytes() is stored into a frame field, wrapped by NewIoBufferBytes or published through variable.Set (copy/Write/string() are the barriers). " +
 			"(R3) the fast path returns the retained buffer only under every dirty bit the frame's mutators write (or the mutators drop the retained bytes), and writes nothing but the id patch into retained memory. " +
@@ -44,6 +44,8 @@ func runC01(c *Ctx) {
 	c.Rule("C01.R9", "HTTP/2 to HTTP/2: the outgoing URL is the received one (or a copy of it with single fields changed), never composed anew", 1)
 	defer c01H2URLFromReceived(c)
 	defer c01RawViewsConsistent(c)
+	c.Rule("C01.R10", "cloning an HTTP/2 header map keeps every value of every name", 1)
+	defer c01CloneKeepsEveryValue(c)
 	c.NotDecided = append(c.NotDecided, "HTTP/1.1 and HTTP/2 method/URI/header/body fidelity (runtime string values)", "tars byte identity (always re-encoded through TarsGo)", "header.EncodeHeader/DecodeHeader inverse property (dependency)")
 	c.Assumptions = append(c.Assumptions, "IoBuffer.Bytes() is a view of the buffer's array; Write/Clone/copy copy (mosn.io/pkg/buffer/iobuffer.go)", "passing wire bytes to TarsGo/thrift/hessian readers does not retain them in the frame")
 
